@@ -44,8 +44,8 @@ def _span_in_file(sp, fname):
     return None
 
 
-def weave_group(group, repo, outdir, extras=()):
-    w = Weaver(repo).weave(group, extras=extras)
+def weave_group(group, repo, outdir, extras=(), bare=(), drop_aids=None):
+    w = Weaver(repo).weave(group, extras=extras, bare=bare, drop_aids=drop_aids)
     os.makedirs(outdir, exist_ok=True)
     out = os.path.join(outdir, group + '.rs')
     open(out, 'w').write('\n'.join(w.lines) + '\n')
@@ -221,17 +221,39 @@ def run_group(group, repo='/repo', outdir=None, seed=0, rlimit=None, extra_args=
     """run a group; when the code under contract calls a helper that is not under contract (a refactoring moved logic into a
     new function), extract that helper from the same source file and verify again (at most 3 rounds)"""
     extras = []
+    bare = []
+    drop = {}
     res = None
-    for _round in range(4):
-        res = _run_group(group, repo, outdir, seed, rlimit, extra_args, log_air, timeout, extras)
+    for _round in range(8):
+        res = _run_group(group, repo, outdir, seed, rlimit, extra_args, log_air, timeout, extras, bare, drop)
         if res['status'] != 'undecided' or not res.get('undecided'):
             break
         new = find_missing_helpers(res, repo, extras)
-        if not new:
+        if new:
+            extras += new
+            continue
+        # a rustc-level error located on a woven proof aid (hint / invariant / closure contract): that aid no longer fits the
+        # changed code; drop exactly that aid and verify again (the contract clauses stay)
+        progressed = False
+        for u in res['undecided']:
+            if not (u.get('unit') and u.get('code') and u.get('src') is None and u.get('woven_line')):
+                continue
+            unit = next((x for x in res['map']['units'] if x['unit'] == u['unit']), None)
+            for aid, l0, l1 in (unit or {}).get('aids', []):
+                if l0 <= u['woven_line'] <= l1 and aid not in drop.get(u['unit'], set()):
+                    drop.setdefault(u['unit'], set()).add(aid)
+                    progressed = True
+        if progressed:
+            continue
+        nb = sorted(set(u['unit'] for u in res['undecided'] if u.get('unit') and u.get('code') and u.get('src') is None and u['unit'] not in bare
+                        and not u['unit'].startswith('auto.')))
+        if not nb:
             break
-        extras += new
+        bare += nb
     if extras:
         res['auto_extracted_helpers'] = ['%s :: %s' % (f, ' :: '.join(sg)) for f, sg in extras]
+    if bare or drop:
+        res['proof_aids_dropped'] = dict(all_aids_of=bare, single={k: sorted(v) for k, v in drop.items()})
     return res
 
 
@@ -265,12 +287,12 @@ def find_missing_helpers(res, repo, have):
     return out
 
 
-def _run_group(group, repo, outdir, seed, rlimit, extra_args, log_air, timeout, extras):
+def _run_group(group, repo, outdir, seed, rlimit, extra_args, log_air, timeout, extras, bare=(), drop=None):
     outdir = outdir or os.environ.get('VERIF_BUILD') or os.path.join(VERIF, 'build')
     t0 = time.time()
     res = dict(group=group, status='ok', reason=None, diags=[], undecided=[], units=[], obligations={}, time_s=0.0)
     try:
-        path, mp, lines = weave_group(group, repo, outdir, extras=extras)
+        path, mp, lines = weave_group(group, repo, outdir, extras=extras, bare=bare, drop_aids=drop)
     except SliceError as e:
         res.update(status='undecided', reason='anchor: %s' % e)
         return res
@@ -321,7 +343,7 @@ def _run_group(group, repo, outdir, seed, rlimit, extra_args, log_air, timeout, 
         c = classify(d, mp, woven_name, lines)
         if code or UNDECIDED_PAT.search(msg) or (c['kind'] == 'other' and not c['label']):
             # rustc-level error, unsupported construct, resource limit: not a verdict
-            res['undecided'].append(dict(message=msg, code=code, unit=c['unit'], src=c['src'], rendered=c['rendered']))
+            res['undecided'].append(dict(message=msg, code=code, unit=c['unit'], src=c['src'], rendered=c['rendered'], woven_line=c.get('woven_line')))
             continue
         if c['kind'] == 'recommends':
             continue
